@@ -121,7 +121,7 @@ def gen_cases(ctx):
 
 
 def run(ctx):
-    cw.standard_check(ctx, gen_cases(ctx), PROP, KINDS, "runner.streams", make_monitor(ctx), extra=tokens_vs_model)
+    cw.standard_check(ctx, cw.corpus_cases(PROP) + gen_cases(ctx), PROP, KINDS, "runner.streams", make_monitor(ctx), extra=tokens_vs_model)
 
 
 def replay(ctx, obj):
